@@ -80,6 +80,12 @@ CLAIMS = {
    design_ref="DESIGN.md §4 C15",
    note="Partial: initial registers other than the program counter, stack and OS stubs are not part of the model; memory is the abstract byte map (C08 ties MemoryMap to it).",
    technique="Coq proofs (page arithmetic, write-sequence invariants) + model correspondence + differential testing against an independent reader"),
+ "C20": dict(
+   category="proof",
+   text="Coq theorems over a model of read_program's try/except chain with abstract constructors: the chain always yields a recognised format or the raw fallback when no constructor raises outside its own error types, an exception can only escape from the first constructor that does not reject, and a file carrying one format's magic that its own constructor recognises is never claimed by another format when the magic prefix tables are pairwise disjoint; the HEX/SREC line parsers (modelled completely in C14) are total. Tie: regenerated obligation (the magic prefixes of the live constants are pairwise disjoint); the hypotheses are tested per run: read_program on random bytes, magic+random, truncations and corruptions of the samples and of synthesised ELF/PE/Mach-O/HEX/SREC files (14 worker processes with CPU-time and memory limits) never raises, stays within the limits, returns a format only for inputs with its magic and identifies every valid file as its own format; corrupted HEX/SREC lines are compared with the complete line model. Ten genuine defects repaired, one known finding.",
+   design_ref="DESIGN.md §4 C20",
+   note="Partial by nature: the constructors' bodies are outside the model; 'never raises / bounded time and memory' is hypothesis testing with an 8 s CPU / 400 MB growth limit per input.",
+   technique="Coq proofs about the identification chain + regenerated magic-table obligation + fault-injection differential testing with resource limits"),
  "C16": dict(
    category="proof",
    text="Coq theorems over a model of StructCore layout and the unpack/pack skeleton: every field of a non-packed structure sits at the least offset that is a multiple of its alignment and not before the previous field's end (the C ABI characterisation), packed structures have no padding, the size is a multiple of the alignment, unpack(pack(v)) = v for every field list and surrounding bytes, and the unsigned LEB128 codec round-trips for every number and trailing bytes. Tie: generated definitions (scalars, arrays, strings, full-width bitfields, nested structs/unions, packed or not, per-field byte order) through StructFactory vs the Gallina layout model (vm_compute); the C-layout reference is validated per run against gcc -m64 and -m32 -malign-double (sizeof/_Alignof/offsetof); unpack/pack round trips on random bytes for both pointer sizes; counted, bound, LEB128 (signed and unsigned, vs an independent encoder) and terminated fields. Nine genuine defects found by this check were repaired.",
